@@ -161,7 +161,9 @@ class Carry:
         if t == "call" and e[1].split("::")[-1] == "wrapping_mul":
             mu, z = e[2][0], e[2][1]
             if not (mu[0] == "sym" and mu[1].endswith("::MU")):
-                raise Obligation("wrapping_mul whose first operand is not MU")
+                mu, z = z, mu                       # wrapping_mul is commutative
+            if not (mu[0] == "sym" and mu[1].endswith("::MU")):
+                raise Obligation("wrapping_mul without MU as an operand")
             B = 1 << (self.bits(z[3]) if z[0] == "as" else self.w)
             zp, zlo, zhi = self.tr(z)
             self.need(zhi < B, "the digit fed to MU * z exceeds the multiplier word")
